@@ -197,6 +197,17 @@ def corpus_expectations(case, ev):
             ev.append(("violation", f"corpus (Coq example package) with {cfg!r}: {what}",
                        replay_of(case, cfg, client=(client(cfg) or "")[:1500]), True))
 
+    if case.sc.seed == -104:
+        # regression of C15-forward-refs-empty-type-checking-block (Coq: C15_forward_refs_regression_empty_block)
+        for cfg in case.configs:
+            ev.append(("count", 1))
+            if client(cfg) is None:
+                ev.append(("violation", f"corpus (scalar-only package) with {cfg!r}: generation fails: {case.gen[cfg].res.get('exc')}",
+                           replay_of(case, cfg, exc=case.gen[cfg].res.get("exc")), True))
+            elif "S" in cfg and "F" in cfg and cfg.index("S") < cfg.index("F"):
+                expect(cfg, "no TYPE_CHECKING block / import is expected when only builtin annotations remain",
+                       "TYPE_CHECKING" not in client(cfg) and "        from .item import Item" in client(cfg))
+        return
     if case.sc.seed in (-102, -103):
         order = [q.split()[1].split("(")[0] for q in case.sc.queries.strip().splitlines()]
         for cfg in [c for c in case.configs if "E" in c and client(c) is not None]:
@@ -243,8 +254,6 @@ def corpus_expectations(case, ev):
                "GET_ME_GQL = " in ops and "query=GET_ME_GQL" in client(cfg))
 
 
-LEGACY = "C15-plugins-ignore-legacy-section"
-EMPTY_TC = "C15-forward-refs-empty-type-checking-block"
 REDUCED = ["S", "E", "F", "N", "SE", "SF", "FS", "EF", "SEFN", "FESN", "I"]
 # operation names built to collide if the constant's name were not injective (X / XGql / XGqlGql, a bare Gql)
 COLLIDE_SDL = "type Query { item: Int userDetails: Int }\n"
@@ -301,11 +310,7 @@ def compare_trees_across(cases, run):
             run.dist("option_forms", ("same" if not changed else "differs") + ":" + what.split()[1])
             if changed:
                 rep = replay_of(a, cfg, reference_config=b.sc.config, changed=changed, legacy_section=bool(a.sc.notes.get("legacy_section")))
-                if a.sc.notes.get("legacy_section") and "S" in cfg and changed == ["client.py"]:
-                    run.finding(LEGACY, f"{what}: with {cfg!r} client.py differs (ShorterResults reads fragments_module_name "
-                                        f"from [tool.ariadne-codegen] only)", rep)
-                else:
-                    run.violation(f"{what}: with plugins {cfg!r} files {changed} differ", rep)
+                run.violation(f"{what}: with plugins {cfg!r} files {changed} differ", rep)
 
 
 def fixed_scenarios():
@@ -327,7 +332,10 @@ def fixed_scenarios():
     out.insert(3, scenario.Scenario(seed=-103, sdl=CORPUS3_SDL, queries="\n".join(reversed(CORPUS3_OPS)) + "\n",
                                     config={"convert_to_snake_case": False, "async_client": True,
                                             "opentelemetry_client": False}, features=("corpus",)))
-    for i, (base, asyn) in enumerate([(out[5], True), (out[6], False)]):
+    out.insert(4, scenario.Scenario(seed=-104, sdl="type Query { item: Int }\n", queries="query item { item }\n",
+                                    config={"convert_to_snake_case": True, "async_client": True,
+                                            "opentelemetry_client": False}, features=("corpus",)))
+    for i, (base, asyn) in enumerate([(out[6], True), (out[7], False)]):
         cfg = dict(base.config, enable_custom_operations=True, async_client=asyn)
         queries = base.queries if asyn else "\n".join(
             l for l in base.queries.split("\nsubscription")[0].splitlines())
@@ -335,7 +343,7 @@ def fixed_scenarios():
         out.append(scenario.Scenario(seed=-21 - i, sdl=sdl, queries=queries + "\n", config=cfg,
                                      features=("fixed", "custom_operations") + (("local_clash",) if not asyn else ()),
                                      files=dict(base.files)))
-    return out + option_scenarios(out[4])
+    return out + option_scenarios(out[5])
 
 
 def _fixed_scenarios():
@@ -703,13 +711,7 @@ def _check_case(case, plans, ev):
         if not g.ok:
             ev.append(("count", 1))
             # (finding C15-forward-refs-custom-operations — KeyError: 'self' — is fixed by /repo 91a5368)
-            exc = g.res.get("exc") or ["", ""]
-            if "F" in cfg and "InvalidInput" in exc[0] and "def gql" in exc[1]:
-                # the statement after the (empty) `if TYPE_CHECKING:` block cannot be parsed
-                ev.append(("finding", EMPTY_TC, f"generation with plugins {cfg!r} fails: {exc[0]}: {exc[1][:120]!r}",
-                           replay_of(case, cfg, exc=exc)))
-                ev.append(("dist", "finding_inputs", "only-builtin-annotations+ClientForwardRefs"))
-                continue
+            # (finding C15-forward-refs-empty-type-checking-block — black InvalidInput — is fixed by /repo c4f3669)
             ev.append(("violation", f"generation with plugins {cfg!r} fails ({g.res.get('exc')}) while the unplugged one succeeds",
                        replay_of(case, cfg, exc=g.res.get("exc"), tb=g.res.get("tb")), True))
             continue
@@ -755,12 +757,7 @@ def compare(case, cfg, ops, plans, base_run, res, ev, first):
     load, bload = res["load"], base_run["load"]
     if not load.get("ok"):
         rep = replay_of(case, cfg, modules={k: v for k, v in load.get("modules", {}).items() if v != "ok"})
-        if (case.sc.notes.get("legacy_section") and "S" in cfg and frag_module(case.sc) != "fragments"
-                and any(".fragments'" in v for v in rep["modules"].values())):
-            ev.append(("finding", LEGACY, f"package generated with {cfg!r} from the legacy [ariadne-codegen] section and "
-                                          f"fragments_module_name = {frag_module(case.sc)!r} does not import: {rep['modules']}", rep))
-            ev.append(("dist", "finding_inputs", "legacy-section+ShorterResults+fragments_module_name"))
-            return
+        # (finding C15-plugins-ignore-legacy-section is fixed by /repo 13e2fa6)
         # (finding C15-no-reimports-custom-operations — `from . import <Enum>` in custom_*.py — is fixed by /repo 2282fe6)
         # (finding F24 — every ClientForwardRefs package failed here — is fixed by /repo 7b86743: a regression is a violation)
         ev.append(("violation", f"package generated with plugins {cfg!r} does not import: {rep['modules']}", rep, True))
@@ -817,11 +814,7 @@ def compare(case, cfg, ops, plans, base_run, res, ev, first):
                                          same_ast=ast_doc(b) == ast_doc(c)), True))
                 ev.append(("count", 1))
     hints, bhints = res.get("hints") or {}, base_run.get("hints") or {}
-    if (hints.get("tc_errors") and case.sc.notes.get("legacy_section") and "S" in cfg
-            and all(".fragments import" in e for e in hints["tc_errors"])):
-        ev.append(("finding", LEGACY, f"TYPE_CHECKING imports of {cfg!r} do not resolve (legacy section): {hints['tc_errors'][:2]}",
-                   replay_of(case, cfg, tc_errors=hints["tc_errors"])))
-    elif hints.get("tc_errors"):
+    if hints.get("tc_errors"):
         ev.append(("violation", f"TYPE_CHECKING imports of {cfg!r} do not resolve: {hints['tc_errors'][:3]}",
                    replay_of(case, cfg, tc_errors=hints["tc_errors"]), True))
     for op in ops:
